@@ -167,6 +167,12 @@ func (w *wire) record(b []byte) {
 	w.mu.Unlock()
 }
 
+func (w *wire) setAlter(f func([]byte) [][]byte) {
+	w.mu.Lock()
+	w.alter = f
+	w.mu.Unlock()
+}
+
 func (w *wire) snapshot() [][]byte {
 	w.mu.Lock()
 	defer w.mu.Unlock()
@@ -174,11 +180,11 @@ func (w *wire) snapshot() [][]byte {
 }
 
 func (w *wire) alterations(b []byte) [][]byte {
+	w.mu.Lock()
+	defer w.mu.Unlock()
 	if w.alter == nil {
 		return nil
 	}
-	w.mu.Lock()
-	defer w.mu.Unlock()
 	out := w.alter(b)
 	w.injected += len(out)
 	return out
@@ -261,15 +267,9 @@ func (l *tapListener) Accept() (net.Conn, error) {
 	}
 	var c net.Conn = &tapConn{Conn: nc, raw: l.raw}
 	if l.cfg != nil {
-		c = &tlsTap{Conn: tls.Server(c, l.cfg), inner: nc}
+		c = tls.Server(c, l.cfg)
 	}
 	return &tapConn{Conn: c, frames: l.frames}, nil
-}
-
-// tlsTap keeps RemoteAddr/LocalAddr of the TCP connection (gortsplib asserts *net.TCPAddr)
-type tlsTap struct {
-	*tls.Conn
-	inner net.Conn
 }
 
 // ---------- marker search ----------
